@@ -9,7 +9,7 @@ from ..classflow import EXEMPT_ROOTS, Closure, callable_names
 from ..loader import AnalysisError, BuiltinClass, ClassInfo, FuncInfo, dotted, norm
 from ..report import Ctx
 from . import _c16_helpers as H
-from ._c08_helpers import combined_read_through_rule
+from ._c08_helpers import combined_read_through_rule, get_never_raises_rule, pickle_state_rule, removal_loop_rule
 from ._shared import headerset_insertion_rule, headerset_order_rule, headerset_roles
 
 LEVEL_TEXT = (
@@ -33,14 +33,35 @@ LEVEL_TEXT = (
     "list iterates the whole list in order; and no path leaves such a loop inside an iteration (break / return / raise "
     "in the body, helpers inlined) with an outcome the method also produces after a complete scan - the default, the "
     "KeyError, False, the accumulated result are given only when every wrapped dict has been consulted, an early exit "
-    "carries a value found in the current dict. It decides these clauses on all paths, not conformance of every read "
+    "carries a value found in the current dict; (R8.8) in-place removal loops, decided on the CFG of every loop of the "
+    "container modules (werkzeug.datastructures.*): a for loop that walks a list lazily (the list, iter / enumerate / zip "
+    "of it, range(len(it)); local aliases resolved) and removes an element from that list in its body (del l[i] / "
+    "l.pop(i) / l.remove(x), one level of self.helper(...) followed) has no path from the removal back to the loop head "
+    "unless it walks backwards, or walks a copy and does not delete at its own position; a while loop that deletes at an "
+    "index variable of a list it reads at that variable (or whose length it tests) advances that variable on no path from "
+    "the deletion back to the loop test (net change of the index along each path, a step back compensating a step "
+    "forward); (R8.9) get() of every container class, executed as the class's MRO resolves it with the class's own item "
+    "access, membership test and private helpers inlined (so a base-class get() is judged once per subclass against that "
+    "subclass's __getitem__, which for the multi dicts also raises for a key that is present without values), lets no "
+    "explicitly raised KeyError / BadRequestKeyError / LookupError / IndexError escape on any path - also when the "
+    "exception object is chosen first and raised later; (R8.10) for every class with MultiDict in its MRO the reduction "
+    "pickle uses (__reduce_ex__ / __reduce__ as the MRO resolves it, else __getstate__ with __setstate__; values through "
+    "locals and private helpers resolved) builds its state from a read that carries every value of every key - "
+    "items(multi=True) not collapsed by dict(), lists() / listvalues() / getlist() / to_dict(flat=False), the raw dict of "
+    "lists (dict.items(self) ...), a storage attribute, a copy of the multi dict - and not only from the first-value view "
+    "(dict(self), items(), values(), to_dict(), self[key]). It decides these clauses on all paths, not conformance of every read "
     "with the abstract model after every history; generator bodies of callees and implicit exceptions are not "
     "followed; for R8.7 a scan spelled as a comprehension / generator expression / next() / any() is complete by "
     "construction and what is then done with its result (e.g. consulting only the first dict that has the key) is not "
-    "decided, nor is which value of a wrapped dict is read or whether the reads of one wrapped dict are complete."
+    "decided, nor is which value of a wrapped dict is read or whether the reads of one wrapped dict are complete; for R8.8 "
+    "removal deeper than one helper level, inside comprehensions or by recursion is not seen, and whether two matching "
+    "elements can ever be adjacent is not considered (the walk must be right for every list); for R8.9 exceptions raised "
+    "implicitly by builtins or by objects of unknown class (the wrapped dicts of the combined view, the conversion "
+    "callable) are not followed; for R8.10 whether the constructor / __setstate__ rebuilds the object from that state is "
+    "not decided, nor is the pickling of Headers / HeaderSet (default reduction of their attributes)."
 )
 TRUSTED = ["CPython ast", "typeshed method tables of list/dict/MutableSet/MutableMapping/MutableSequence (bundled with the repo's mypy, read as text)", "Python MRO (C3) and super() semantics", "builtin container semantics: dict.pop / set.discard / remove change the container iff the key is present, setdefault iff it is absent"]
-ASSUMPTIONS = ["private helpers (single underscore) are reachable only through public methods of the same class", "constructors and the pickle/copy protocol are exempt from R8.1 (they initialise a new object)", "R8.7: the list of wrapped dicts holds mapping objects (never None) and a private sentinel object of the package (_missing) is never a value stored in a wrapped dict"]
+ASSUMPTIONS = ["private helpers (single underscore) are reachable only through public methods of the same class", "constructors and the pickle/copy protocol are exempt from R8.1 (they initialise a new object)", "R8.7: the list of wrapped dicts holds mapping objects (never None) and a private sentinel object of the package (_missing) is never a value stored in a wrapped dict", "R8.8: a container may hold two adjacent elements that match a removal condition (no uniqueness invariant is assumed for a list walked by a removal loop)", "R8.10: the documented reader names of the multi dict model (items(multi=...), lists, listvalues, getlist, to_dict(flat=...), copy / deepcopy) mean what the model says"]
 
 CI_CLASSES = ["datastructures.headers.Headers", "datastructures.structures.HeaderSet"]
 LOWERED_SETS = {"_set"}  # HeaderSet._set holds lower-cased members (established by R8.3's pairing + __init__)
@@ -64,6 +85,9 @@ def run(ctx: Ctx) -> None:
     ctx.rule("R8.5", "EnvironHeaders assigns self.environ only in __init__, assigns nothing else, and its read methods read self.environ")
     ctx.rule("R8.6", "hash material of an immutable multi dict whose equality is order-insensitive does not include positions")
     ctx.rule("R8.7", "every read method of CombinedMultiDict reads the wrapped dicts, scans the whole list in order, and abandons a scan only with a value found in the current dict (the not-found / accumulated outcome needs a complete scan)")
+    ctx.rule("R8.8", "a loop of the container modules that removes an element from the list it walks does not advance past the element that moves into the hole (it leaves the loop, walks backwards, walks a copy and removes by value, or does not advance the index on the deleting path)")
+    ctx.rule("R8.9", "get() of every container class, resolved in the class's MRO with the class's own item access inlined, lets no explicitly raised lookup error escape: a key without value gives the default")
+    ctx.rule("R8.10", "the pickle reduction of every class with the multi dict in its MRO (the __reduce_ex__ the MRO resolves, else __getstate__) builds its state from a read that carries every value of every key, not from the first-value view")
 
     # ---------------- R8.1 -------------------------------------------
     classes = _immutable_classes(ctx)
@@ -256,6 +280,18 @@ def run(ctx: Ctx) -> None:
     nread, nloops = combined_read_through_rule(ctx, "R8.7")
     ctx.floor("R8.7", "read methods of the combined view", nread, 12)
     ctx.floor("R8.7", "explicit scans of the wrapped dicts", nloops, 1)
+
+    # ---------------- R8.8 -------------------------------------------
+    nsites, npairs = removal_loop_rule(ctx, "R8.8")
+    ctx.floor("R8.8", "element removal sites (del x[i] / x.pop(i) / x.remove(v)) seen in the container modules", nsites, 6)
+
+    # ---------------- R8.9 -------------------------------------------
+    nget, nget_pkg = get_never_raises_rule(ctx, "R8.9")
+    ctx.floor("R8.9", "container classes whose get() is a package method", nget, 6)
+    ctx.floor("R8.9", "... of which the item access is a package method that can raise", nget_pkg, 4)
+
+    # ---------------- R8.10 ------------------------------------------
+    ctx.floor("R8.10", "classes with the multi dict in their MRO", pickle_state_rule(ctx, "R8.10"), 4)
 
 
 # ---------------------------------------------------------------------
